@@ -67,6 +67,10 @@ func funcArrayShuttle(ctx *Context, this *VMValue, params []*VMValue) *VMValue {
 
 func funcArrayRand(ctx *Context, this *VMValue, params []*VMValue) *VMValue {
 	arr, _ := this.ReadArray()
+	if len(arr.List) == 0 {
+		ctx.Error = errors.New("(arr.rand)值错误: 数组为空")
+		return nil
+	}
 	return arr.List[rand.Intn(len(arr.List))]
 }
 
